@@ -619,6 +619,10 @@ class _Gen:
                 elif r.random() < .7:
                     # the first interface named is a name of this project that does not exist; the real one follows
                     lines += [f'import {me.split(".")[0]}', f'@_implementer({me}.INoSuch{zu}_{q}, ICalled{zu}_{q})', f'class CImplMissing{zu}_{q}:', f'    "names a missing interface first"']
+            if r.random() < .6:
+                # the same kind of call inside a function and a method body: what a function binds locally is documented nowhere
+                lines += [f'def zmake{zu}():', f'    ILocal{zu} = IFactory{zu}("ILocal{zu}")', f'    return ILocal{zu}',
+                          f'class ZHost{zu}:', f'    def build(self):', f'        ILocalM{zu} = IFactory{zu}("ILocalM{zu}")', f'        self.made = ILocalM{zu}', f'        return ILocalM{zu}']
             items.append(Item(kind='raw', text='\n'.join(lines)))
         if f.assign_alias and visible and r.random() < .4:
             a = f'al{self.new_uid()}'
